@@ -196,6 +196,23 @@ UNIVERSE = [
 PARENT = {2: 0, 3: 2, 4: 1}
 
 
+def universe_with(a, b):
+    """the same five actors with other id strings for the two top-level ones (children's paths follow)"""
+    return [
+        {"full": "t/" + a, "kind": "t", "id": a, "parent": -1, "name": ""},
+        {"full": "t/" + b, "kind": "t", "id": b, "parent": -1, "name": ""},
+        {"full": "t/%s/c/x" % a, "kind": "t/%s/c" % a, "id": "x", "parent": 0, "name": "c"},
+        {"full": "t/%s/c/x/d/y" % a, "kind": "t/%s/c/x/d" % a, "id": "y", "parent": 2, "name": "d"},
+        {"full": "t/%s/c/x" % b, "kind": "t/%s/c" % b, "id": "x", "parent": 1, "name": "c"},
+    ]
+
+
+# ids that are different strings but would coincide under path cleaning, case folding or trimming: the
+# registry is keyed by the exact string
+ODD_UNIVERSES = [universe_with("a", "b/../a"), universe_with("tcp://h:1", "tcp:/h:1"), universe_with("a", "a/"),
+                 universe_with("a", "./a"), universe_with("Ab", "ab"), universe_with("a", "a ")]
+
+
 class Sim:
     """mirror of Registry.sstep, used to keep generated histories inside the modelled domain"""
     def __init__(self):
@@ -450,7 +467,12 @@ class Respawn(Part):
                     sim.apply(op)
                     res.append(op)
             cases.append({"input": {"universe": UNIVERSE, "ops": close_history(res)}, "class": "random"})
-        return [c for c in cases if c["input"]["ops"]]
+        cases = [c for c in cases if c["input"]["ops"]]
+        for k, c in enumerate(cases):
+            if k % 3 == 1:      # a third of the histories over look-alike id strings
+                c["input"]["universe"] = ODD_UNIVERSES[(k // 3) % len(ODD_UNIVERSES)]
+                c["class"] += "_lookalike_ids"
+        return cases
 
     def to_coq(self, inp, obs):
         steps = obs.get("steps") or []
